@@ -5342,8 +5342,10 @@ class Parameterized(metaclass=ParameterizedMetaclass):
         self._param__private.initialized = True
 
         self.param._setup_refs(deps)
-        self.param._update_deps(init=True)
+        # The links made by the constructor are in place before on_init
+        # methods run, so that assignments made there can end or replace them
         self._param__private.refs = refs
+        self.param._update_deps(init=True)
 
     @property
     def param(self) -> Parameters:
